@@ -112,7 +112,7 @@ class VG(object):
             return max(0, n)
         ok = [x for x in cands + [lo, lo + 1] + ([hi, hi - 1] if hi is not None else [])
               if x >= lo and (hi is None or x <= hi) and (x <= max(cap, lo) or (mid and x <= 1000) or
-                                                          (big and (x in BIG_LENS or x in (hi, hi - 1)) and x <= 70001))]
+                                                          (big and (x in BIG_LENS or (hi is not None and x in (hi, hi - 1))) and x <= 70001))]
         if not ok:
             return lo
         if mid or big:
